@@ -610,6 +610,58 @@ def rule_m_setup_follows_settings(ctx, fns):
     return n
 
 
+def rule_n_lm_quotient_bounded(ctx, fns):
+    """LM_gradient_and_value back-projects measured / (forward projection + additive term) for every event.  The function itself tests
+    `measured > max_quotient * estimate` (the singularity; the projection-data gradient caps the quotient at the same number): the
+    division that reaches back_project must not be evaluated where that test succeeded - it must be known false there (must-facts,
+    also through a bool local defined by the test and through ?:) - else an event with estimated mean 0 puts infinity into the gradient
+    (F78)."""
+    from engine.cfg import relations
+
+    RULE = "C14.n-list-mode-quotient-bounded"
+    n = 0
+    seen = set()
+    for f in sorted(fns, key=lambda g: bool(g.is_dependent)):
+        if f.short != "LM_gradient_and_value" or f.body is None or not f.cfg_raw or (f.file, f.body.line) in seen:
+            continue
+        seen.add((f.file, f.body.line))
+        defs = LocalDefs(f)
+        cfg = CFG(f)
+        bps = [c for c in f.calls() if (c.callee or "").split("::")[-1] == "back_project"]
+        if not bps:
+            ctx.unrec(f.qn, "C14.n: no back_project call")
+            continue
+        from engine.algebra import data_slice
+
+        sl = data_slice(f, [a for c in bps for a in c.call_args()] + [c.call_object() for c in bps if c.call_object() is not None], defs)
+        # values stored into the bin that is back-projected (set_bin_value(x))
+        for c in f.calls():
+            if (c.callee or "").split("::")[-1] == "set_bin_value" and c.call_args():
+                sl += data_slice(f, [c.call_args()[0]], defs)
+        divs = [m for m in sl if m.k == "BinaryOperator" and m.op == "/"]
+        divs = list({m.i: m for m in divs}.values())
+        if not divs:
+            ctx.unrec(f.qn, "C14.n: no quotient reaches back_project")
+            continue
+        # the singularity test: a comparison mentioning max_quotient
+        tests = [m for m in f.walk() if m.k == "BinaryOperator" and m.op in (">", ">=", "<", "<=") and "max_quotient" in key(m, True)]
+        if not tests:
+            ctx.ob(RULE, f.qn.split("<")[0], "quotient", False, divs[0].where(), "measured/estimate is back-projected and nothing compares the two with max_quotient: an event with estimated mean 0 gives infinity")
+            n += 1
+            continue
+        tkeys = {key(t) for t in tests}
+        flag_locals = {"v%d" % d for d, vd in defs.decl.items() if vd.c and defs.single_def(d) is not None and key(defs.single_def(d).strip()) in tkeys}
+        for dv in divs:
+            at = dv
+            while at is not None and at.i not in cfg.pos:
+                at = at.parent
+            facts = cfg.facts_at(at) if at is not None else frozenset()
+            ok = any((k_ in tkeys or k_ in flag_locals) and tv is False for k_, tv, _r in facts)
+            ctx.ob(RULE, f.qn.split("<")[0], "quotient", ok, dv.where(), "the quotient is evaluated only where `measured > max_quotient * estimate` is known to be false" if ok else "measured/estimate reaches back_project also where the singularity test `%s` succeeded: for an event with estimated mean 0 the gradient gets infinity (the projection-data gradient caps the quotient at max_quotient)" % key(tests[0], True)[:80])
+            n += 1
+    return n
+
+
 def _subscript_chain(n):
     idx = []
     n = n.strip()
@@ -674,6 +726,10 @@ def run(ctx):
         ctx.require_count("C14.j-batches-continue-with-the-clock", 1)
     rule_k_cache_follows_the_model(ctx, us[3].functions + us[4].functions)
     rule_m_setup_follows_settings(ctx, us[5].functions)
+    nu = ctx.ex.get(Request(LL, fn=["stir::LM_gradient_and_value"], files=["/repo/src/recon_buildblock/PoissonLogLikelihoodWithLinearModelForMeanAndListModeDataWithProjMatrixByBin\\.cxx"]))
+    if nu is not None:
+        rule_n_lm_quotient_bounded(ctx, nu.functions)
+        ctx.require_count("C14.n-list-mode-quotient-bounded", 1)
     ctx.require_count("C14.m-set-up-follows-settings", 7)
     ctx.require_count("C14.k-event-cache-follows-the-model", 1)
     ctx.require_count("C14.a-batches-partition", 6)
